@@ -19,7 +19,10 @@ pub fn bases(thorough: bool) -> Vec<Base> {
         (vec![("Accept", "application/json".into()), ("Transfer-Encoding", "chunked".into())], vec![]),
         (vec![("Accept-Encoding", "gzip, identity".into()), ("Content-Type", "text/plain".into())], vec![]),
     ];
+    // repeated Content-Length: the last acceptable occurrence wins, the limit applies to it
+    variants.push((vec![("Content-Length", "60000".into()), ("Content-Length", "5".into())], b"hello".to_vec()));
     if thorough {
+        variants.push((vec![("Content-Length", "4294967295".into()), ("X-a", "1".into()), ("Content-Length", "0".into())], vec![]));
         variants.push((vec![("content-length", " 12 ".into()), ("X-b", "v:w".into())], b"\r\n\r\nGET / HT".to_vec()));
         variants.push((vec![("Server", "x".into()), ("Accept-Encoding", "*;q=0, identity".into())], vec![]));
     }
